@@ -493,6 +493,28 @@ def judge_hash_log(mon, lm, label):
     mon.ev("lm-state-rows", n)
 
 
+def _walk(RandomWalk, lm, case):
+    """The walk object; for some cases after a journey: deepcopy, or restored from the checkpoint (state_dict) of
+    a walk over the same model that was built with ANOTHER end-of-sequence setting - a checkpoint carries the
+    model's parameters, the walk's own settings are the constructor's."""
+    walk = RandomWalk(lm, case["eos"])
+    k = (case.get("seed", 0) + 3 * case.get("V", 0)) % 5
+    if k == 1 and case.get("V", 0) >= 2:
+        V = case["V"]
+        other_eos = 0 if case["eos"] not in (0, -V) else V - 1
+        walk.load_state_dict(RandomWalk(lm, other_eos).state_dict())
+        LY.TRAVEL_SEEN["state_dict(other eos)"] = LY.TRAVEL_SEEN.get("state_dict(other eos)", 0) + 1
+    elif k == 2:
+        import copy
+
+        lm0 = lm
+        walk = copy.deepcopy(walk)
+        # the harness goes on talking to the model it built: hand the copy that very object
+        walk.lm = lm0
+        LY.TRAVEL_SEEN["deepcopy"] = LY.TRAVEL_SEEN.get("deepcopy", 0) + 1
+    return walk
+
+
 def _model(case):
     lm = LM.make_hashlm(case["lm"])
     if (case.get("seed", 0) + case.get("V", 0)) % 3 == 0:
@@ -528,7 +550,7 @@ def _exec_walk(case, mon):
             "walk_unbatched" if N is None else "walk_batched")
     if T is None:
         mon.cls("walk_max_iters_unset")
-    walk = RandomWalk(lm, case["eos"])
+    walk = _walk(RandomWalk, lm, case)
     lm.begin(conds)
     state = lambda: None if init is None else {k: v.clone() for k, v in init.items()}
     (y, lens, lp), hm = _with_rng(case["rng"], eos, lambda: mon.lib("RandomWalk", lambda: walk(state(), N, T)))
@@ -608,7 +630,7 @@ def _exec_dist(case, mon):
     mon.cls("dist_batched" if N is not None else "dist_unbatched", "dist_sample_shape_%dd" % len(shape),
             "dist_eos_unset" if eos is None else "dist_eos_set",
             "dist_validate_%s" % case["validate"], "dist_cache" if case["cache"] else "dist_no_cache")
-    walk = RandomWalk(lm, case["eos"])
+    walk = _walk(RandomWalk, lm, case)
     state = None if init is None else {k: v.clone() for k, v in init.items()}
     dist = mon.lib("Distribution.__init__", lambda: SequentialLanguageModelDistribution(
         walk, N, state, T, cache_samples=case["cache"], validate_args=case["validate"]))
